@@ -272,3 +272,11 @@ def rule_commit(ctx):
 
 
 RULES.append(("C19.g", "branch-commit: between the decision to perform an effect and the effect there is no way out", rule_commit))
+
+
+def rule_runnable_exists(ctx):
+    from . import c13
+    c13.rule_runnable_exists(ctx)
+
+
+RULES.append(("C19.h", "the runnable_exists predicate covers the wind-down phase (else a handle released while a cancelled poll winds down frees the task twice)", rule_runnable_exists))
